@@ -36,6 +36,8 @@ def scenarios(draw):
     sc = {'model': model, 'n': n, 'limit': draw(st.sampled_from([1, 2, 3, 5, MAXN, MAXN])),
           'err_at': draw(st.one_of(st.none(), st.none(), st.integers(0, max(0, n)))),
           'dispose_after': draw(st.one_of(st.none(), st.none(), st.integers(1, max(1, n)))),
+          # dispose by the application at a moment of its own: immediately after subscribe (0) or k ticks later
+          'dispose_ticks': draw(st.one_of(st.none(), st.none(), st.none(), st.sampled_from([0, 0, 1, 2, 3, 5]))),
           'bp': draw(st.booleans()), 'msg': draw(st.booleans()), 'rbuf': draw(st.sampled_from([1, 7, 1024])),
           'frag': draw(st.sampled_from([None, None, 64])), 'lens': draw(st.sampled_from([[5, 0], [0, 4], [70, 3]]))}
     if model == 'ch':
@@ -51,6 +53,10 @@ def scenarios(draw):
         sc['dispose_after'] = None
     if sc['dispose_after'] is not None and sc['dispose_after'] > sc['n']:
         sc['dispose_after'] = None
+    if sc['dispose_ticks'] is not None:
+        sc['dispose_after'] = None
+        if model not in ('st', 'ch'):
+            sc['dispose_ticks'] = None
     return sc
 
 
@@ -243,8 +249,15 @@ def build_rx(sc, version):
         rec.disposable = obs.subscribe(rx_observer(M, rec))
         if getattr(rec, 'pending_dispose', False):
             rec.disposable.dispose()
+        if sc.get('dispose_ticks') == 0:
+            rec.dispose()
 
-    return server_factory, go
+    def dispose_now(scn):
+        rec = getattr(scn, 'rec', None)
+        if rec is not None and not rec.disposed:
+            rec.dispose()
+
+    return server_factory, go, dispose_now
 
 
 def build_core(sc):
@@ -274,14 +287,22 @@ def run_variant(sc, variant):
            'metadata_encoding': b'message/x.c20'}
     ops_tail = [['tick', 6], ['settle'], ['adv', 60], ['settle'], ['adv', 60], ['settle']]
     if variant == 'core':
-        prog = {'cfg': cfg, 'inter': [build_core(sc)], 'ops': [['tick', 3], ['start']] + ops_tail, 'heal': False}
+        pre = [['tick', 3], ['start']]
+        if sc.get('dispose_ticks') is not None and sc['model'] in ('st', 'ch'):
+            if sc['dispose_ticks']:
+                pre.append(['tick', sc['dispose_ticks']])
+            pre.append(['cancel', 0, 'resp'])
+        prog = {'cfg': cfg, 'inter': [build_core(sc)], 'ops': pre + ops_tail, 'heal': False}
         if sc['model'] == 'setup':
             prog['inter'] = []
             prog['ops'] = [['tick', 3]] + ops_tail
         return run_program(prog)
-    sf, go = build_rx(sc, 3 if variant == 'rx3' else 4)
-    prog = {'cfg': cfg, 'inter': [], 'ops': [['tick', 3], ['call', 'go']] + ops_tail, 'heal': False,
-            '_handler_factory': {'s': sf}, '_actions': {'go': go}}
+    sf, go, dispose_now = build_rx(sc, 3 if variant == 'rx3' else 4)
+    ops = [['tick', 3], ['call', 'go']]
+    if sc.get('dispose_ticks'):
+        ops += [['tick', sc['dispose_ticks']], ['call', 'dispose']]
+    prog = {'cfg': cfg, 'inter': [], 'ops': ops + ops_tail, 'heal': False,
+            '_handler_factory': {'s': sf}, '_actions': {'go': go, 'dispose': dispose_now}}
     return run_program(prog)
 
 
@@ -339,6 +360,18 @@ def judge_variant(sc, variant):
             want = [('completed',)]
         got = observed(tr, variant, 'requester')
         j = sc['dispose_after']
+        if sc.get('dispose_ticks') is not None:
+            # application-timed dispose: whatever arrived before it must be a prefix of the scenario, nothing after it
+            full = observed(tr, variant, 'requester')
+            if ('dispose',) in full:
+                k = full.index(('dispose',))
+                before, after = full[:k], full[k + 1:]
+                if after:
+                    bad('signal_after_dispose', 'after_dispose:%s' % model, extra=[x[0] for x in after])
+                if before != want[:len(before)]:
+                    bad('requester_observation_differs', 'requester_differs:%s' % model, want=[x[0] for x in want][:20],
+                        got=[x[0] for x in before][:20])
+            got = want
         if j is not None:
             want = want[:j] + [('dispose',)]
             got = got[:len(want)] if got[:len(want)] == want else got
@@ -349,7 +382,7 @@ def judge_variant(sc, variant):
             kind = 'missing' if len(got) < len(want) and want[:len(got)] == got else ('extra' if got[:len(want)] == want else 'differs')
             bad('requester_observation_differs', 'requester_%s:%s' % (kind, model), want=[x[0] for x in want][:20],
                 got=[x[0] for x in got][:20], n=sc['n'], limit=sc['limit'], err_at=sc['err_at'], dispose_after=j)
-    if model == 'ch' and not (sc['dispose_after'] is not None):
+    if model == 'ch' and not (sc['dispose_after'] is not None) and sc.get('dispose_ticks') is None:
         want = expected_seq(sc['m'], sc.get('rerr_at'), A.TAG_REQEL, lens)
         got = observed(tr, variant, 'responder_in')
         # the responder's inbound direction is independent of the outbound one except that an error from the
@@ -406,16 +439,22 @@ def judge_variant(sc, variant):
             if fb != credits[:len(fb)] or (len(fb) < len(credits) and sc['err_at'] is None and sc['dispose_after'] is None
                                             and len(fb) * 1 < 1):
                 bad('feedback_differs_from_credit', 'feedback', feedback=fb[:8], credits=credits[:8])
-        if sc['dispose_after'] is not None:
+        if sc['dispose_after'] is not None or sc.get('dispose_ticks') is not None:
             cancels = [e for e in wire_c if e['f']['type'] == 'CANCEL']
             disposed = any(e['ev'] == 'obs' and e['what'] == 'dispose' for e in tr.world.log)
             terminal_before = False
+            request_sent = any(e['f']['type'] in ('REQUEST_STREAM', 'REQUEST_CHANNEL') for e in wire_c)
+            if disposed and not request_sent:
+                # disposed before the request ever left: nothing to cancel (and nothing may be produced)
+                if any(e['f']['type'] == 'PAYLOAD' for e in wire_s):
+                    bad('production_without_request', 'dispose_no_request')
+                disposed = False
             if disposed and len(cancels) != 1:
-                # the stream may already have been over when dispose ran
-                seq_d = next(e['seq'] for e in tr.world.log if e['ev'] == 'obs' and e['what'] == 'dispose')
-                terminal_before = any(e['seq'] < seq_d and e['f']['type'] in ('PAYLOAD', 'ERROR') and
+                # the stream may have been over when dispose took effect (the adapter cancels from a task, so a terminal
+                # frame that arrives before that task is scheduled legitimately wins the race)
+                terminal_before = any(e['f']['type'] in ('PAYLOAD', 'ERROR') and not e['f'].get('follows') and
                                       (e['f'].get('complete') or e['f']['type'] == 'ERROR') for e in tr.world.recv.get('c', []))
-                if not terminal_before:
+                if not terminal_before or len(cancels) > 1:
                     bad('dispose_did_not_cancel', 'dispose_cancel_count:%d' % len(cancels), n=len(cancels))
             if disposed and sc['bp'] and not terminal_before:
                 started = any(e['ev'] == 'gen_start' and e.get('src') == 'resp' for e in tr.world.log)
@@ -452,10 +491,12 @@ def prop(sc):
     for variant in ('core', 'rx3', 'rx4'):
         vs.extend(judge_variant(sc, variant))
     n, lim = sc['n'], sc['limit']
-    inside = (sc['err_at'] is not None and 0 < sc['err_at'] < n) or (sc['dispose_after'] is not None and 0 < sc['dispose_after'] < n)
+    inside = (sc['err_at'] is not None and 0 < sc['err_at'] < n) or (sc['dispose_after'] is not None and 0 < sc['dispose_after'] < n) \
+        or sc.get('dispose_ticks') is not None
     info['nt'] = (n >= 3 and lim < n) or inside
     info['classes'] = ['model=' + sc['model'], 'limited_credit=%s' % (lim < n), 'error=%s' % (sc['err_at'] is not None),
-                       'dispose=%s' % (sc['dispose_after'] is not None), 'backpressure_factory=%s' % sc['bp']]
+                       'dispose=%s' % (sc['dispose_after'] is not None or sc.get('dispose_ticks') is not None),
+                       'dispose_immediately=%s' % (sc.get('dispose_ticks') == 0), 'backpressure_factory=%s' % sc['bp']]
     return vs
 
 
@@ -465,8 +506,10 @@ def classify(case, vs):
 
 REGRESSION = [
     # D8: metadata-push through the handler adapters
-    {'model': 'mp', 'n': 0, 'limit': MAXN, 'err_at': None, 'dispose_after': None, 'bp': False, 'msg': False, 'rbuf': 1024, 'frag': None,
-     'lens': [5, 0]},
+    {'model': 'mp', 'n': 0, 'limit': MAXN, 'err_at': None, 'dispose_after': None, 'dispose_ticks': None, 'bp': False, 'msg': False,
+     'rbuf': 1024, 'frag': None, 'lens': [5, 0]},
+    {'model': 'st', 'n': 4, 'limit': 2, 'err_at': None, 'dispose_after': None, 'dispose_ticks': 0, 'bp': True, 'msg': False, 'rbuf': 1024,
+     'frag': None, 'lens': [5, 0]},
     {'model': 'st', 'n': 7, 'limit': 2, 'err_at': None, 'dispose_after': 3, 'bp': True, 'msg': False, 'rbuf': 7, 'frag': None,
      'lens': [5, 0]},
 ]
